@@ -28,6 +28,9 @@ type PropertyDef struct {
 
 var properties = map[string]*PropertyDef{}
 
+// verifDir is where spec tables, evidence and replay files live.
+var verifDir = "/verif"
+
 func register(d *PropertyDef) { properties[d.ID] = d }
 
 var quickConfigs = []BuildConfig{{"linux", "amd64"}}
@@ -69,6 +72,7 @@ func main() {
 			*tier = "quick"
 		}
 	}
+	verifDir = *verif
 	seed := 0
 	if s := os.Getenv("VERIF_SEED"); s != "" {
 		seed, _ = strconv.Atoi(s)
